@@ -375,9 +375,13 @@ func c10Oracle(c c10Case) error {
 	}
 	var inside int64
 	// Every offset of ordinary streams; for very long ones (lines crossing the 16 KiB buffer)
-	// every 13th offset plus everything near a line boundary and near a buffer boundary.
+	// every 13th offset (or more, see stride) plus everything near a line boundary and near a
+	// buffer boundary.
+	// The stride grows with the square of the length (every cut re-scans the stream), so that
+	// a case costs a bounded number of scanned bytes whatever its size.
+	stride := max(13, len(ctx.x)/1000*len(ctx.x)/40000)
 	take := func(off int) bool {
-		if len(ctx.x) <= 6000 || off%13 == 0 || len(ctx.x)-off < 4 {
+		if len(ctx.x) <= 6000 || off%stride == 0 || len(ctx.x)-off < 4 {
 			return true
 		}
 		if m := off % 16384; m <= 3 || m >= 16381 {
